@@ -181,6 +181,60 @@ theorem C18_increments_are_single :
 
 end Yabgp
 
+namespace Yabgp
+open Sess
+
+variable (U : Bool → Bytes → UpdClass)
+
+/-- the frames the receive loop hands to the dispatcher, in order, when connection `i` receives `buf` -/
+def dispatched : Nat → Sess → Nat → Bytes → List (Nat × Bytes)
+  | 0, _, _, _ => []
+  | fuel+1, s, i, buf =>
+    if (s.conn i).disconnected then []
+    else
+      match headOf buf with
+      | .frame ty body len =>
+        (ty, body) :: (if (dispatch U s i ty body).2 then dispatched fuel (dispatch U s i ty body).1 i (buf.drop len) else [])
+      | _ => []
+
+/-- **Cumulative, received side**: after the receive loop has run over any buffer, the receive counters of the
+    connection have moved by exactly the increments owed for the frames dispatched, in order - no frame is counted
+    twice or skipped, whatever the state machine did in reaction (including closing the connection), and a framing
+    error counts nothing. -/
+theorem C18_received_cumulative (i : Nat) : ∀ (fuel : Nat) (s : Sess) (buf : Bytes), i < s.conns.length →
+    ((drain U fuel s i buf).1.conn i).recv =
+      (dispatched U fuel s i buf).foldl (fun st f => recvInc f.1 f.2 st) (s.conn i).recv := by
+  intro fuel
+  induction fuel with
+  | zero => intro s buf _; rfl
+  | succ n ih =>
+    intro s buf hlt
+    unfold drain dispatched
+    unfold parseBuffer
+    by_cases hd : (s.conn i).disconnected = true
+    · simp [hd]
+    · simp only [hd, Bool.false_eq_true, ↓reduceIte]
+      cases hh : headOf buf with
+      | short => simp
+      | badMarker =>
+        simp only [List.foldl_nil]
+        exact keeps_headerError indep_recv s _ _ i
+      | badLength len =>
+        simp only [List.foldl_nil]
+        exact keeps_headerError indep_recv s _ _ i
+      | frame ty body len =>
+        simp only
+        have hone := C18_received_counted_once U s i ty body hlt
+        have hlen : (dispatch U s i ty body).1.conns.length = s.conns.length := (frm_dispatch U 0 i s ty body).len
+        by_cases hc : (dispatch U s i ty body).2 = true
+        · simp only [hc, ↓reduceIte, List.foldl_cons]
+          rw [ih _ _ (by rw [hlen]; exact hlt), hone]
+        · simp only [hc, Bool.false_eq_true, ↓reduceIte, List.foldl_cons, List.foldl_nil]
+          exact hone
+
+end Yabgp
+
 #print axioms Yabgp.C18_received_counted_once
 #print axioms Yabgp.C18_sent_counted_once
 #print axioms Yabgp.C18_increments_are_single
+#print axioms Yabgp.C18_received_cumulative
